@@ -488,12 +488,22 @@ from Reduino.transpile.emitter import emit
 corpus = json.loads(sys.argv[2])
 order = json.loads(sys.argv[3])
 out = []
+held = None      # (index, Program, text): re-emitted after the NEXT script was parsed - a returned Program owns its data
 for i in order:
     try:
         prog = parse(corpus[i])
         first = emit(prog)
         again = emit(prog)          # emit() reads the Program: a second emission of the same object is the same text
-        out.append([i, hashlib.sha256(first.encode()).hexdigest() if first == again else "EMIT-TWICE-DIFFERS " + hashlib.sha256(again.encode()).hexdigest()[:12]])
+        tag = hashlib.sha256(first.encode()).hexdigest() if first == again else "EMIT-TWICE-DIFFERS " + hashlib.sha256(again.encode()).hexdigest()[:12]
+        if held is not None and held[0] != i:
+            try:
+                later = emit(held[1])
+            except Exception as ex2:
+                later = "EXC " + type(ex2).__name__
+            if later != held[2]:
+                tag = "EMIT-TWICE-DIFFERS (script %d, emitted again after script %d was parsed)" % (held[0], i)
+        held = (i, prog, first)
+        out.append([i, tag])
     except Exception as ex:
         out.append([i, "EXC " + type(ex).__name__ + ": " + str(ex)[:80]])
 print(json.dumps(out))
